@@ -30,7 +30,7 @@ Fixpoint lookup (t : list (Qc * Qc)) (x : Qc) : Qc :=
 Definition espec (s : spectrum QcF) : list Z :=
   ewunit (s_wu _ s) ++ eopt efunit (s_vu _ s) ++ elist eQ (s_wave _ s) ++ elist eQ (s_value _ s)
   ++ eQ (trapz QcF (s_wave _ s) (s_value _ s)).
-Definition noexp : Qc -> Qc := fun _ => 0%Qc.
+Definition qleb (x y : Qc) : bool := Qle_bool (this x) (this y).
 
 Definition run (inp : list Z) : list Z :=
   match inp with
@@ -70,6 +70,15 @@ Definition run (inp : list Z) : list Z :=
                   args <- plist puname ;; pret (ws, t, wn, vn, tab, args)) rest with
       | Some (ws, t, wn, vn, tab, args) =>
           eresult espec (rbind (blackbody QcF cH cC cK (lookup tab) ws t wn vn) (fun s => to QcF cH cC s args))
+      | None => emalformed end
+    else if op =? 7 then
+      match pall (wu <- pwunit ;; vu <- popt pfunit ;; ws <- plist pQ ;; vs <- plist pQ ;; wb <- puname ;;
+                  mode <- pZ ;; pts <- plist pQ ;; pret (wu, vu, ws, vs, wb, mode, pts)) rest with
+      | Some (wu, vu, ws, vs, wb, mode, pts) =>
+          if Nat.eqb (length ws) (length vs) then
+            if mode =? 0 then eresult (elist eQ) (sample QcF cH cC qleb (mkSpec QcF ws vs wu vu) pts wb)
+            else eresult (elist eQ) (sample_grid QcF cH cC qleb (mkSpec QcF ws vs wu vu) wb)
+          else emalformed
       | None => emalformed end
     else emalformed
   | _ => emalformed
